@@ -376,6 +376,22 @@ class Interp:
         if k >= 0:
             name = c[:k]
         name = strip_generics_text(name)
+        if name == '[]':
+            return Array([])
+        if fr is not None and fr.env and name in fr.env:
+            t = fr.env[name]
+            if t[0] == 'path' and t[1].isdigit():
+                return int(t[1])
+        if 'promoted[' in name and fr is not None and fr.func is not None:
+            key = fr.func.name + '::' + name.split('::')[-1]
+            f = self.prog.consts.get(key)
+            if f is not None:
+                ck = (key,)
+                if ck in self.const_cache:
+                    return copy_value(self.const_cache[ck])
+                v = self.const(f.const_value[6:], fr) if f.const_value is not None else self.run(f, [], dict(fr.env))
+                self.const_cache[ck] = v
+                return copy_value(v)
         if name in self.const_cache:
             return copy_value(self.const_cache[name])
         f = self.lookup_const(name, fr)
@@ -385,7 +401,7 @@ class Interp:
                 # unit-like struct / enum variant used as a constant
                 v = self.unit_adt(name)
             if v is None:
-                raise Unsupported('constant ' + c)
+                raise Unsupported('constant %s in %s env %s' % (c, fr.func.name if fr is not None and fr.func else None, fr.env if fr is not None else None))
             return v
         if f.const_value is not None:
             v = self.const(f.const_value[6:] if f.const_value.startswith('const ') else f.const_value, fr)
@@ -653,8 +669,18 @@ class Interp:
         if len(segs) >= 2:
             vi = self.prog.variant_index(segs[-2], last)
             if vi is not None:
-                return Adt(segs[-2], last, vi, vals, names)
-        return Adt(last, None, 0, vals, names)
+                ty = segs[-2]
+                if ty in rtypes.AMBIG and len(segs) >= 3:
+                    ty = segs[-3] + '::' + ty
+                return Adt(ty, last, vi, vals, names)
+        if last in rtypes.AMBIG and len(segs) >= 2:
+            last = segs[-2] + '::' + last
+        targs = ()
+        if path.endswith('>') and last.split('::')[-1] in self.prog.structs:
+            t = parse_type(path)
+            if t[0] == 'path' and t[2]:
+                targs = tuple(subst(a, fr.env) for a in t[2]) if fr.env else t[2]
+        return Adt(last, None, 0, vals, names, targs)
 
     # ------------------------------------------------------------------ arithmetic
     def binop(self, fr, op, a_op, b_op):
@@ -665,8 +691,9 @@ class Interp:
 
     def binop_vals(self, op, a, b, ty):
         if op in ('Eq', 'Ne'):
-            if isinstance(a, float) or isinstance(b, float):
-                r = a == b
+            if isinstance(a, float) or isinstance(b, float) or (is_sym(a) and z3.is_real(a)) or (is_sym(b) and z3.is_real(b)):
+                ra = realval(to_fp(a)); rb = realval(to_fp(b))
+                r = (a == b) if (not is_sym(a) and not is_sym(b)) else (False if ra is None or rb is None else simp(ra == rb))
             elif isinstance(a, Adt) or isinstance(b, Adt):
                 raise Unsupported('Eq on aggregates')
             else:
@@ -674,7 +701,7 @@ class Interp:
             return r if op == 'Eq' else b_not(r)
         info = int_info(ty)
         if info is None:
-            if ty in ('f64', 'f32') or isinstance(a, float) or isinstance(b, float) or (is_sym(a) and z3.is_fp(a)):
+            if ty in ('f64', 'f32') or isinstance(a, float) or isinstance(b, float) or (is_sym(a) and (z3.is_fp(a) or z3.is_real(a))) or (is_sym(b) and z3.is_real(b)):
                 return self.float_binop(op, a, b)
             if is_sym(a) and z3.is_bv(a):
                 info = (a.size(), False)
@@ -784,21 +811,36 @@ class Interp:
         raise Unsupported('symbolic binop ' + op)
 
     def float_binop(self, op, a, b):
+        """f64 operations.  Concrete floats: python floats (IEEE double).  Symbolic floats are z3 Reals standing for a
+        finite, non-NaN f64 (an over-approximation: every f64 is a real); only comparisons are supported on them."""
         fa = to_fp(a); fb = to_fp(b)
         if not is_sym(fa) and not is_sym(fb):
-            return {'Lt': fa < fb, 'Le': fa <= fb, 'Gt': fa > fb, 'Ge': fa >= fb, 'Add': fa + fb, 'Sub': fa - fb,
-                    'Mul': fa * fb, 'Div': fa / fb if fb != 0 else float('inf')}[op]
-        fa = fpval(fa); fb = fpval(fb)
-        if op == 'Lt': return z3.fpLT(fa, fb)
-        if op == 'Le': return z3.fpLEQ(fa, fb)
-        if op == 'Gt': return z3.fpGT(fa, fb)
-        if op == 'Ge': return z3.fpGEQ(fa, fb)
-        rm = z3.RNE()
-        if op == 'Add': return z3.fpAdd(rm, fa, fb)
-        if op == 'Sub': return z3.fpSub(rm, fa, fb)
-        if op == 'Mul': return z3.fpMul(rm, fa, fb)
-        if op == 'Div': return z3.fpDiv(rm, fa, fb)
-        raise Unsupported('float binop ' + op)
+            if op in ('Lt', 'Le', 'Gt', 'Ge'):
+                return {'Lt': fa < fb, 'Le': fa <= fb, 'Gt': fa > fb, 'Ge': fa >= fb}[op]
+            try:
+                return {'Add': lambda: fa + fb, 'Sub': lambda: fa - fb, 'Mul': lambda: fa * fb,
+                        'Div': lambda: fa / fb if fb != 0 else (float('nan') if fa == 0 or fa != fa else float('inf') * (1 if (fa > 0) == (str(fb)[0] != '-') else -1)),
+                        'Rem': lambda: __import__('math').fmod(fa, fb)}[op]()
+            except OverflowError:
+                return float('inf')
+        ra = realval(fa); rb = realval(fb)
+        if ra is None or rb is None:
+            # comparison of a finite symbolic value with NaN / inf
+            other = fa if not is_sym(fa) else fb
+            sym_left = is_sym(fa)
+            if other != other:
+                return False
+            big = other > 0
+            if op in ('Lt', 'Le'):
+                return big if sym_left else not big
+            if op in ('Gt', 'Ge'):
+                return (not big) if sym_left else big
+            raise Unsupported('float arithmetic with infinity')
+        if op == 'Lt': return simp(ra < rb)
+        if op == 'Le': return simp(ra <= rb)
+        if op == 'Gt': return simp(ra > rb)
+        if op == 'Ge': return simp(ra >= rb)
+        raise Unsupported('arithmetic on a symbolic f64 (%s)' % op)
 
     def unop(self, fr, op, a_op):
         a = self.operand(fr, a_op)
@@ -864,6 +906,22 @@ class Interp:
             return float(v)
         if kind == 'FloatToFloat':
             return v
+        if kind == 'FloatToInt':
+            dst = int_info(ty)
+            if dst is None:
+                raise Unsupported('cast to ' + ty)
+            bits, signed = dst
+            lo, hi = ((-(1 << (bits - 1))), (1 << (bits - 1)) - 1) if signed else (0, (1 << bits) - 1)
+            if is_sym(v):
+                raise Unsupported('symbolic float to int cast')
+            if v != v:
+                return 0
+            if v >= hi:
+                return hi & ((1 << bits) - 1)
+            if v <= lo:
+                return lo & ((1 << bits) - 1)
+            import math
+            return math.trunc(v) & ((1 << bits) - 1)
         raise Unsupported('cast ' + kind)
 
     # ------------------------------------------------------------------ execution
@@ -949,7 +1007,7 @@ class Interp:
             self.depth -= 1
 
     def set_discriminant(self, o, d, fr, pl):
-        ty = o.ty
+        ty = o.ty.split('::')[-1]
         names = None
         if ty in self.prog.enums:
             for vs in self.prog.enums[ty]:
@@ -1180,7 +1238,10 @@ class Interp:
             if len(segs) >= 2:
                 vi = self.prog.variant_index(segs[-2], last)
                 if vi is not None:
-                    return Adt(segs[-2], last, vi, list(args))
+                    ty = segs[-2]
+                    if ty in rtypes.AMBIG and len(segs) >= 3:
+                        ty = segs[-3] + '::' + ty
+                    return Adt(ty, last, vi, list(args))
             if last in self.prog.structs and last[:1].isupper() and (last,) not in [k for k in ()]:
                 if not any(k == last for k in MODELS):
                     return Adt(last, None, 0, list(args))
@@ -1314,6 +1375,7 @@ def simp(e):
 def is_scalar(v):
     return isinstance(v, (int, bool)) and not isinstance(v, float) or (is_sym(v) and (z3.is_bool(v) or z3.is_bv(v)))
 
+
 def ite(c, x, y):
     """scalar merge"""
     bx = isinstance(x, bool) or (is_sym(x) and z3.is_bool(x))
@@ -1338,6 +1400,16 @@ def fpval(v):
         return z3.FPVal(v, z3.Float64())
     return v
 
+def realval(v):
+    """z3 Real for a concrete finite float / symbolic real; None for NaN and infinities"""
+    if is_sym(v):
+        return v
+    if v != v or v in (float('inf'), float('-inf')):
+        return None
+    from fractions import Fraction
+    fr_ = Fraction(v)
+    return z3.RealVal(fr_.numerator) / z3.RealVal(fr_.denominator)
+
 def seq_len(v):
     if isinstance(v, Ref):
         v = v.get()
@@ -1357,8 +1429,8 @@ def seq_len(v):
 def elem_len(x):
     if isinstance(x, WChar):
         return x.n
-    if isinstance(x, DecRun):
-        raise Unsupported('length of a string containing a symbolic decimal number')
+    if isinstance(x, (DecRun, FloatLit)):
+        raise Unsupported('length of a string containing a symbolic number')
     return 1
 
 def strip_generics_text(s):
@@ -1411,7 +1483,7 @@ def runtime_type(v):
             return ('path', 'String', ())
         return ('path', v.kind.split('<')[0], (('path', 'str', ()),))
     if isinstance(v, Adt):
-        return ('path', v.ty, ())
+        return ('path', v.ty, v.targs)
     if isinstance(v, bool):
         return ('path', 'bool', ())
     if isinstance(v, Tup):
